@@ -357,6 +357,11 @@ pub fn scenario_enr_answer(seed: u64, rep: &mut Report) {
 pub fn run(p: &Params) -> Report {
     let mut rep = Report::new("C01");
     if let Some(r) = &p.replay {
+        if super::sys::replay(r, &mut rep) {
+            return rep;
+        }
+    }
+    if let Some(r) = &p.replay {
         let seed: u64 = r["replay"]["scenario_seed"].as_str().unwrap().parse().unwrap();
         if r["replay"]["kind"] == "enr-answer" {
             scenario_enr_answer(seed, &mut rep);
@@ -374,6 +379,12 @@ pub fn run(p: &Params) -> Report {
             let seed = p.shard_seed(0x01_0000 + i);
             crate::util::guarded(&mut rep, seed, |rep| scenario(seed, rep));
         }
+    }
+    // full stack: the same attacker against an unmodified Discv5 inside a simulated network
+    let n = p.budget(2400, 150000);
+    for i in 0..n {
+        let seed = p.shard_seed(0x5C01_0000 + i);
+        crate::util::guarded(&mut rep, seed, |rep| super::sys::attack(seed, rep));
     }
     rep
 }
